@@ -187,6 +187,7 @@ func checkC07(p *core.Program, r *core.Report) {
 	r.Rule("O7.2", "JSON key → wire field → parameter field → witness field of the same role, index-faithful, over the system's dimensions")
 	r.Rule("O7.3", "prover errors propagate; (nil, err) / (&Proof{groth16.Prove result}, nil) return discipline")
 	r.Rule("O7.4", "groth16.Prove(system constraint system, system proving key, full witness of the assignment)")
+	r.Rule("O7.8", "the prover does not store into the request parameter set (directly or through in-repo callees)")
 	r.Rule("O7.7", "the prover refuses only through an accounted callee's error (shape validation, witness construction, solver) or a self-constructed error whose condition reads dimensions only — no precondition on request values beyond the statement's")
 	r.Rule("O7.6", "the circuits accept exactly valid batches (imported verdicts of the C01, C02 and C03 obligations)")
 	r.Rule("O7.5", "verifier: hash parameter → public field of a PublicOnly witness → groth16.Verify(proof, system verifying key, witness); its error is returned")
@@ -359,6 +360,13 @@ func checkC07(p *core.Program, r *core.Report) {
 			checkProverReturns(p, r, ix, fn)
 			// O7.7
 			checkRefusals(p, r, "O7.7", fn)
+			// O7.8: the prover proves what it was given — it does not write the request parameters (filling in a missing
+			// input hash turns an invalid parameter set into a provable one)
+			if w, at := writesThroughParam(fn, 1+pix, map[string]bool{}); w {
+				r.Violation("O7.8", name+": request parameters are read-only", p.Pos(at), "the prover (or a function it hands the parameters to) stores into the request's parameter set: the proof is then for values other than the ones submitted, and a parameter set that is invalid as submitted can be answered with a proof")
+			} else {
+				r.OK("O7.8", name+": request parameters are read-only", p.Pos(fn.Pos()), "no store through the parameter pointer in the prover or the in-repo functions it passes it to")
+			}
 		} else if verify != nil {
 			// ---------------- verifier
 			nVerifiers++
